@@ -46,11 +46,12 @@ package expressions
 //@   modifies nothing
 
 //@ func (*ParserT).parseBareword [C20 C19]
-//@   requires tree != nil && 0 <= tree.charPos && tree.charPos < len(tree.expression)
+//@   requires tree != nil && 0 <= tree.charPos && tree.charPos <= len(tree.expression)
 //@   modifies tree.charPos
-//@   ensures old(tree.charPos) < tree.charPos && tree.charPos <= len(tree.expression)
-//@   loop 1 invariant tree.charPos + 1 <= i && i <= len(tree.expression)
-//@   loop 1 decreases len(tree.expression) - i
+//@   ensures old(tree.charPos) <= tree.charPos && tree.charPos <= len(tree.expression)
+//@   ensures imp(old(tree.charPos) < len(tree.expression), old(tree.charPos) < tree.charPos)
+//@   loop 1 invariant tree.charPos + 1 <= i && (i <= len(tree.expression) || i == tree.charPos + 1)
+//@   loop 1 decreases len(tree.expression) - i + 1
 
 //@ func (*ParserT).parseComment [C20 C19]
 //@   requires tree != nil && -1 <= tree.charPos
@@ -86,3 +87,10 @@ package expressions
 //@   check none
 //@   requires tree != nil
 //@   ensures imp(result3 == nil, len(result) >= 1)
+
+// `:` handling: a cast marker as the very last character leaves parseBareword at the end of input.
+//@ func processStatementColon [C20 C19]
+//@   requires tree != nil && tree.statement != nil && 0 <= tree.charPos && tree.charPos < len(tree.expression)
+//@ func appendToParam [C20 C19]
+//@   requires tree != nil && tree.statement != nil
+//@   modifies tree.statement.paramTemp, elems(tree.statement.paramTemp)
